@@ -163,6 +163,7 @@ func (col *collector) collect(ctx context.Context) (err error) {
 	t.Reset(time.Second)
 
 	for {
+		verifPoint("collector.loop")
 		select {
 		case <-col.stopper.ShouldQuiesce():
 			log.Info(ctx, "interrupted")
